@@ -115,7 +115,7 @@ type DB struct {
 	readBufferSizeBytes  uint64
 }
 
-func (db *DB) Open() error {
+func (db *DB) Open() (err error) {
 	db.rwLock.Lock()
 	defer db.rwLock.Unlock()
 
@@ -123,7 +123,15 @@ func (db *DB) Open() error {
 		return ErrAlreadyOpen
 	}
 
-	err := db.repairCompactions()
+	// a failed Open gives back the tables it has loaded already: Close refuses to run on a database that is not open
+	defer func() {
+		if err != nil {
+			err = errors.Join(err, db.sstableManager.currentSSTable().Close())
+			db.sstableManager.clearReaders()
+		}
+	}()
+
+	err = db.repairCompactions()
 	if err != nil {
 		return err
 	}
